@@ -192,3 +192,56 @@ func (w *World) checkChangeSetReplay() *Violation {
 	w.Labels["changeset_replayed"] = true
 	return nil
 }
+
+// checkHostileChangeSet (C15): an arbitrary (not normal-form) change set applied to a copy of the latest version:
+// SaveChangeSet applies the pairs in order as one new version and rejects the removal of a key that is missing at
+// that point.
+func (w *World) checkHostileChangeSet(pairs []*iavl.KVPair) *Violation {
+	if w.Latest == 0 {
+		return nil
+	}
+	src, err := w.Tree.GetImmutable(w.Latest)
+	if err != nil {
+		return w.viol("cs.getimmutable", "%v", err)
+	}
+	// copy of the latest version in a fresh tree
+	tr2 := iavl.NewMutableTree(dbm.NewMemDB(), 0, w.Cfg.SkipFast, iavl.NewNopLogger())
+	kv := copyKV(w.Vers[w.Latest].KV)
+	if _, err := src.Iterate(func(k, v []byte) bool { _, _ = tr2.Set(cp(k), cp(v)); return false }); err != nil {
+		return w.viol("harness", "%v", err)
+	}
+	if _, _, err := tr2.SaveVersion(); err != nil {
+		return w.viol("harness", "%v", err)
+	}
+	before := tr2.Version()
+	wantErr := false
+	for _, p := range pairs {
+		if p.Delete {
+			if _, ok := kv[string(p.Key)]; !ok {
+				wantErr = true
+				break
+			}
+			delete(kv, string(p.Key))
+		} else {
+			kv[string(p.Key)] = p.Value
+		}
+	}
+	nv, err := tr2.SaveChangeSet(&iavl.ChangeSet{Pairs: pairs})
+	if wantErr {
+		if err == nil {
+			return w.viol("cs.reject", "SaveChangeSet %v removes a key that is missing at that point but was accepted (version %d)", fmtChangeSet(&iavl.ChangeSet{Pairs: pairs}), nv)
+		}
+		w.Cnt["hostile_changesets_rejected"]++
+		return nil
+	}
+	if err != nil || nv != before+1 {
+		return w.viol("cs.save", "SaveChangeSet %v = %d,%v want version %d", fmtChangeSet(&iavl.ChangeSet{Pairs: pairs}), nv, err, before+1)
+	}
+	var got []KV
+	_, _ = tr2.Iterate(func(k, v []byte) bool { got = append(got, KV{cp(k), cp(v)}); return false })
+	if !eqKVs(got, sortedKVs(kv)) {
+		return w.viol("cs.apply", "SaveChangeSet %v gives %s want %s", fmtChangeSet(&iavl.ChangeSet{Pairs: pairs}), fmtKVs(got), fmtKVs(sortedKVs(kv)))
+	}
+	w.Cnt["hostile_changesets_applied"]++
+	return nil
+}
